@@ -425,68 +425,88 @@ func (vc *VC) execFunction(fn *ssa.Function, args []Val, bindings []Val, st *Sta
 		if len(conds) == 0 {
 			continue // unreachable
 		}
-		fr.cur = b
-		fr.live = vc.name("reach", orFactor(conds))
-		fr.st = vc.mergeStates(conds, sts)
-		ld := fr.loops[b]
-		// phis
-		phiVals := map[*ssa.Phi]Val{}
-		for _, ins := range b.Instrs {
-			phi, ok := ins.(*ssa.Phi)
-			if !ok {
-				continue
-			}
-			var evs []Val
-			var cs []Term
-			for i := range preds {
-				evs = append(evs, fr.val(phi.Edges[predIndex(b, preds[i])]))
-				cs = append(cs, relCond(conds[i], fr.live))
-			}
-			v := vc.mergeVals(cs, evs)
-			phiVals[phi] = v
-		}
-		if ld != nil {
-			fr.enterLoop(ld, phiVals)
-		} else {
-			for p, v := range phiVals {
-				if v.Tup == nil {
-					v.T = vc.name(p.Name(), v.T)
+		// a block that only returns is executed once per incoming edge (tail duplication): the
+		// postconditions are then checked per path instead of on a merged state
+		groups := [][]int{nil}
+		if top && len(conds) > 1 && len(conds) <= 4 && len(b.Succs) == 0 && fr.loops[b] == nil && len(b.Instrs) <= 12 && vc.spec == 0 {
+			if _, isRet := b.Instrs[len(b.Instrs)-1].(*ssa.Return); isRet {
+				groups = nil
+				for i := range conds {
+					groups = append(groups, []int{i})
 				}
-				fr.vals[p] = v
 			}
 		}
-		// instructions
-		terminated := false
-		for _, ins := range b.Instrs {
-			if _, ok := ins.(*ssa.Phi); ok {
-				continue
+		allConds, allSts, allPreds := conds, sts, preds
+		for _, grp := range groups {
+			if grp != nil {
+				conds, sts, preds = []Term{allConds[grp[0]]}, []*State{allSts[grp[0]]}, []*ssa.BasicBlock{allPreds[grp[0]]}
 			}
-			if fr.live.S == "false" {
-				break
-			}
-			switch t := ins.(type) {
-			case *ssa.If:
-				c := fr.term(t.Cond)
-				fr.setEdges(b, []Term{and(fr.live, c), and(fr.live, not(c))})
-				terminated = true
-			case *ssa.Jump:
-				fr.setEdges(b, []Term{fr.live})
-				terminated = true
-			case *ssa.Return:
-				var res []Val
-				for _, r := range t.Results {
-					res = append(res, fr.val(r))
+			fr.cur = b
+			fr.live = vc.name("reach", orFactor(conds))
+			fr.st = vc.mergeStates(conds, sts)
+			ld := fr.loops[b]
+			// phis
+			phiVals := map[*ssa.Phi]Val{}
+			for _, ins := range b.Instrs {
+				phi, ok := ins.(*ssa.Phi)
+				if !ok {
+					continue
 				}
-				exits = append(exits, Exit{Cond: fr.live, St: fr.st, Res: res, Pos: t.Pos()})
-				terminated = true
-			case *ssa.Panic:
-				fr.xexit(fr.live, "panic", t.Pos())
-				terminated = true
-			default:
-				fr.execInstr(ins)
+				var evs []Val
+				var cs []Term
+				for i := range preds {
+					evs = append(evs, fr.val(phi.Edges[predIndex(b, preds[i])]))
+					cs = append(cs, relCond(conds[i], fr.live))
+				}
+				v := vc.mergeVals(cs, evs)
+				phiVals[phi] = v
 			}
-			if terminated {
-				break
+			if ld != nil {
+				fr.enterLoop(ld, phiVals)
+			} else {
+				for p, v := range phiVals {
+					if v.Tup == nil {
+						v.T = vc.name(p.Name(), v.T)
+					}
+					fr.vals[p] = v
+				}
+			}
+			// instructions
+			terminated := false
+			for _, ins := range b.Instrs {
+				if _, ok := ins.(*ssa.Phi); ok {
+					continue
+				}
+				if fr.live.S == "false" {
+					break
+				}
+				switch t := ins.(type) {
+				case *ssa.If:
+					c := fr.term(t.Cond)
+					fr.setEdges(b, []Term{and(fr.live, c), and(fr.live, not(c))})
+					terminated = true
+				case *ssa.Jump:
+					fr.setEdges(b, []Term{fr.live})
+					terminated = true
+				case *ssa.Return:
+					if fr.isTop {
+						fr.runAsserts("return", t.Pos())
+					}
+					var res []Val
+					for _, r := range t.Results {
+						res = append(res, fr.val(r))
+					}
+					exits = append(exits, Exit{Cond: fr.live, St: fr.st, Res: res, Pos: t.Pos()})
+					terminated = true
+				case *ssa.Panic:
+					fr.xexit(fr.live, "panic", t.Pos())
+					terminated = true
+				default:
+					fr.execInstr(ins)
+				}
+				if terminated {
+					break
+				}
 			}
 		}
 	}
@@ -943,6 +963,9 @@ func (fr *Frame) enterLoop(ld *loopData, entryPhi map[*ssa.Phi]Val) {
 	for k, cl := range invs {
 		t := fr.evalLoopClause(ld, cl, entryPhi)
 		vc.obligeSplit("inv-init", fmt.Sprintf("%s#inv-init[%s.%s]", fr.fname(), lname, clauseLabel(cl, k)), fr.live, t, cl)
+	}
+	if len(invs) > 0 {
+		vc.deps = append(vc.deps, fmt.Sprintf("@loop:%s#%s.", fr.fname(), lname))
 	}
 	// 2. havoc what the loop may modify
 	mods, all := vc.modOfBlocks(fr.fn, ld.blocks)
@@ -1776,7 +1799,6 @@ func (fr *Frame) lookup(t *ssa.Lookup) {
 	fr.vals[t] = Val{T: v}
 	vc.assumeWF(fr.st, v, mt.Elem())
 }
-
 
 // ---- map iteration (visited-set model) ------------------------------------------------------
 
